@@ -94,6 +94,8 @@ func digestResponse(sp *saml2.SAMLServiceProvider, enc string) string {
 
 func newC17SP(f *c17Fixture) *KeyedSP {
 	kc := f.kc
+	kc.Jitter = true // setter keys behave like slow external signers
+	kc.SpyEnc = kc.EncSetter && !kc.EncField
 	ksp := NewKeyedSP(f.now, kc, f.signer)
 	ksp.SP.SignAuthnRequests = true
 	ksp.SP.SignAuthnRequestsAlgorithm = f.alg.URI
